@@ -201,6 +201,20 @@ def make_transformer(rules: dict, strict: bool, removable_live: dict, log: list,
     ns: dict = {f"visit_{c}": make(c, a) for c, a in rules.items()}
     ns["generic_visit"] = generic_visit
     ns["strict"] = strict
+    variant = (len(rules) + sum(len(c) for c in rules)) % 3
+    if variant == 1:
+        # rules and the strictness setting live on a base visitor class; the visitor used is an empty subclass
+        base = type("GenTransformerBase", (ASTTransformVisitor,), ns)
+        return type("GenTransformer", (base,), {})()
+    if variant == 2:
+        # the rule set is attached to the instance (a rule table installed with setattr)
+        import types as _t
+
+        inst = type("GenTransformer", (ASTTransformVisitor,), {"generic_visit": generic_visit, "strict": strict})()
+        for name, fn in ns.items():
+            if name.startswith("visit_"):
+                setattr(inst, name, _t.MethodType(fn, inst))
+        return inst
     return type("GenTransformer", (ASTTransformVisitor,), ns)()
 
 
@@ -221,6 +235,17 @@ def make_dispatcher(methods: list[str], strict: bool, validate: bool):
     ns["strict"] = strict
     import types as _t
 
+    variant = (len(methods) + sum(len(c) for c in methods)) % 3
+    if variant == 1:
+        base = _t.new_class("GenDispatcherBase", (ASTVisitor,), {"validate": validate}, lambda d: d.update(ns))
+        return _t.new_class("GenDispatcher", (base,), {"validate": validate})()
+    if variant == 2 and not validate:
+        inst = _t.new_class("GenDispatcher", (ASTVisitor,), {}, lambda d: d.update(
+            {"generic_visit": ns["generic_visit"], "strict": strict}))()
+        for name, fn in ns.items():
+            if name.startswith("visit_"):
+                setattr(inst, name, _t.MethodType(fn, inst))
+        return inst
     return _t.new_class("GenDispatcher", (ASTVisitor,), {"validate": validate}, lambda d: d.update(ns))()
 
 
@@ -289,7 +314,7 @@ def check_case(data: dict, lab: Labels) -> None:
         require(got == exp, "dispatch", f"{e.cls} with methods {sorted(rules1)} strict={strict}: {got}, expected {exp}")
     # strictness is a property of the visitor *object*: two objects of one class that set it in
     # __init__, used alternately (and through node.accept as well)
-    two = [type(disp)(), type(disp)()]
+    two = [make_dispatcher(list(rules1), strict, data["validate"]), make_dispatcher(list(rules1), strict, data["validate"])]
     two[0].strict, two[1].strict = strict, not strict
     for k, e in enumerate(nodes):
         for j in ((0, 1) if k % 2 else (1, 0)):
